@@ -120,3 +120,10 @@ UNITS.append(Unit('string_boundary', harness=['h_string_boundary.cpp'], repo_uni
 for _fn in _re.findall(r'^HARNESS (h_\w+)\(\)', open(_os.path.join(_os.path.dirname(_os.path.abspath(__file__)), 'h_string_boundary.cpp')).read(), _re.M):
     HARNESSES.append(Harness('string_boundary', _fn, unwind=42, mem_gb=4, timeout=600,
                              bounds='embedded String brought to exactly the number of characters in the harness name by assign / append / append_chars; contents symbolic, lengths constants'))
+
+# ---- String::_op_vformat at the capacity boundary of its direct path (defect D21, repaired)
+UNITS.append(Unit('string_format', harness=['h_string_format.cpp'], repo_units=['asmjit/core/string.cpp'], extra_c=['verif_printf.c'], c_defines=['VP_MAX=160'], cbmc_defines=['VERIF_MEM_LOOPS']))
+for _fn in _re.findall(r'^HARNESS (h_\w+)\(\)', open(_os.path.join(_os.path.dirname(_os.path.abspath(__file__)), 'h_string_format.cpp')).read(), _re.M):
+    HARNESSES.append(Harness('string_format', _fn, unwind=162, mem_gb=6, timeout=900,
+                             bounds='String with external storage of capacity 140 holding 0 or 5 characters, append_format("%s", text) with a text of exactly the length in the harness comment (one below / equal to / one above the remaining capacity); characters symbolic'))
+ASSUMPTIONS += ['string_format: vsnprintf is the model tools/verif_printf.c (validated against libc by the native twins)']
